@@ -72,6 +72,12 @@ def build_tables(dp):
             for k, ri in enumerate(r3.sample(decoys, min(len(decoys), dp["top_decoys"]))):
                 for ci in fcols:
                     t["rows"][ri][ci] = float(f"{9.0 + k + r3.random():.6f}")
+        if dp.get("row_order") == "targets_first":
+            # the common layout "all targets, then the decoys appended" (stable: relative order inside each class kept)
+            li = t["columns"].index("Label")
+            order = sorted(range(len(t["rows"])), key=lambda i: 0 if (t["rows"][i][li] is True or t["rows"][i][li] == 1) else 1)
+            t["rows"] = [t["rows"][i] for i in order]
+            t["meta"]["truth_correct"] = [t["meta"]["truth_correct"][i] for i in order]
         if dp.get("nan_key") and "ExpMass" in t["columns"]:
             # spectra whose numeric key column (the measured mass) is missing: all their PSMs still form one spectrum
             r4 = random.Random(f"nankey|{dp['data_seed']}|{f}")
